@@ -89,6 +89,9 @@ func errOf(kind string) error {
 // BoltOpened wraps every bbolt.Open call of the instrumented copy (and of the harness).
 func BoltOpened(db *bbolt.DB, err error) (*bbolt.DB, error) {
 	d := currentDisk()
+	if d == nil && err == nil && db != nil && procFaultsOn() {
+		return procFaultProxy(db)
+	}
 	if d == nil || err != nil || db == nil {
 		return db, err
 	}
@@ -286,4 +289,58 @@ func (fl *FileLog) Image(ev []Event, k int, fate func(w *WriteRec) (Fate, uint64
 		img = append(img, make([]byte, flen-int64(len(img)))...)
 	}
 	return img
+}
+
+// ---- process-level fault point (the instrumented twin of the real binary, run as a child)
+//
+// VERIF_WRITE_LOG=<file>   one byte is appended per bbolt write (the parent learns the count)
+// VERIF_KILL_AT_WRITE=<n>  the process sends itself SIGKILL right before its n-th bbolt write
+//
+// The count is process-wide and in program order, so a kill position replays exactly —
+// unlike strace's per-thread syscall counters.
+
+var (
+	procOnce   sync.Once
+	procKillAt int64 = -1
+	procLog    *os.File
+	procCount  int64
+	procMu     sync.Mutex
+)
+
+func procFaultsOn() bool {
+	procOnce.Do(func() {
+		if v := os.Getenv("VERIF_KILL_AT_WRITE"); v != "" {
+			var n int64
+			fmt.Sscan(v, &n)
+			procKillAt = n
+		}
+		if p := os.Getenv("VERIF_WRITE_LOG"); p != "" {
+			procLog, _ = os.OpenFile(p, os.O_CREATE|os.O_APPEND|os.O_WRONLY, 0o644)
+		}
+	})
+	return procKillAt >= 0 || procLog != nil
+}
+
+func procFaultProxy(db *bbolt.DB) (*bbolt.DB, error) {
+	f := reflect.ValueOf(db).Elem().FieldByName("ops").FieldByName("writeAt")
+	if !f.IsValid() {
+		return db, errors.New("simrt: bbolt.DB.ops.writeAt not found (bbolt layout changed)")
+	}
+	slot := (*func([]byte, int64) (int, error))(unsafe.Pointer(f.UnsafeAddr()))
+	orig := *slot
+	*slot = func(b []byte, off int64) (int, error) {
+		procMu.Lock()
+		procCount++
+		n := procCount
+		if procLog != nil {
+			_, _ = procLog.Write([]byte{'w'})
+		}
+		procMu.Unlock()
+		if n == procKillAt {
+			_ = syscall.Kill(os.Getpid(), syscall.SIGKILL)
+			select {}
+		}
+		return orig(b, off)
+	}
+	return db, nil
 }
